@@ -462,9 +462,7 @@ func RunC16(tier string) int {
 		if len(p.Targets) >= 2 {
 			run.Nontrivial(fmt.Sprintf("agree|%d|%d|%v", len(p.Targets), len(p.Aliases), mkSafe))
 		}
-		if i == 0 {
-			run.Sample(map[string]any{"package": p, "formats": fmts})
-		}
+		run.Sample(map[string]any{"package": p, "formats": fmts})
 	})
 
 	// (2) determinism across worker counts, under the race detector
